@@ -67,6 +67,9 @@ type FaultPlan struct {
 	WriteCut int // cut position for torn/error_after, reduced modulo len+1
 	// ReadFault applies to the ReadNth-th FSReadFile call (1-based, 0 = none): an EIO is returned.
 	ReadNth int
+	// MetaFailNth: the n-th call among OpenFile(for writing)/CreateTemp/Rename/Remove/Sync/Close/Truncate
+	// fails with EIO (1-based, 0 = none). Only hand-written write paths make such calls.
+	MetaFailNth int
 }
 
 // Goroutine is one controlled goroutine of the simulated process.
@@ -124,6 +127,8 @@ type Sim struct {
 	EventCount  int // seam events of the whole process (used by KillAtEvent)
 	writeCalls  int
 	readCalls   int
+	metaCalls   int
+	tempNames   map[string]string
 	Fired       map[string]int // fault kinds that actually fired
 	Uncontrol   int            // seams hit from goroutines the simulator does not know
 	MapRanges   int
@@ -707,6 +712,11 @@ func Printf(format string, a ...any) (int, error) {
 // R7: file system (pass-through to the real one, plus events and faults)
 
 func (s *Sim) rel(p string) string {
+	s.mu.Lock()
+	if t, ok := s.tempNames[p]; ok {
+		p = t
+	}
+	s.mu.Unlock()
 	if s.Root != "" && strings.HasPrefix(p, s.Root) {
 		return "$ROOT" + p[len(s.Root):]
 	}
@@ -919,4 +929,208 @@ func (s *Sim) FiredCounts() map[string]int {
 		out[k] = v
 	}
 	return out
+}
+
+// ---------------------------------------------------------------------------------------
+// R7 continued: hand-written write paths (os.OpenFile / CreateTemp / Rename / Remove and the
+// writing methods of *os.File). Pass-through plus events, kill points and injected errors.
+
+// metaFail decides whether this meta call is the one the plan makes fail.
+func (s *Sim) metaFail() bool {
+	s.mu.Lock()
+	defer s.mu.Unlock()
+	s.metaCalls++
+	if s.Plan.MetaFailNth != 0 && s.metaCalls == s.Plan.MetaFailNth {
+		s.Fired["meta_error"]++
+		return true
+	}
+	return false
+}
+
+func eio(op, path string) error { return &fs.PathError{Op: op, Path: path, Err: syscall.EIO} }
+
+// FSOpenFile replaces os.OpenFile.
+func FSOpenFile(name string, flag int, perm os.FileMode) (*os.File, error) {
+	s := active()
+	if s == nil {
+		return os.OpenFile(name, flag, perm)
+	}
+	g := s.seam("openfile " + s.rel(name))
+	writing := flag&(os.O_WRONLY|os.O_RDWR|os.O_CREATE|os.O_TRUNC|os.O_APPEND) != 0
+	if writing && s.metaFail() {
+		s.logEvent(g, "openfile "+s.rel(name)+" -> injected EIO")
+		return nil, eio("open", name)
+	}
+	f, err := os.OpenFile(name, flag, perm)
+	s.logEvent(g, "openfile "+s.rel(name)+" flag="+strconv.Itoa(flag)+" -> "+errClass(err))
+	return f, err
+}
+
+// FSOpen replaces os.Open.
+func FSOpen(name string) (*os.File, error) {
+	s := active()
+	if s == nil {
+		return os.Open(name)
+	}
+	g := s.seam("open " + s.rel(name))
+	f, err := os.Open(name)
+	s.logEvent(g, "open "+s.rel(name)+" -> "+errClass(err))
+	return f, err
+}
+
+// FSCreateTemp replaces os.CreateTemp. The random name is logged as $TEMPn.
+func FSCreateTemp(dir, pattern string) (*os.File, error) {
+	s := active()
+	if s == nil {
+		return os.CreateTemp(dir, pattern)
+	}
+	g := s.seam("createtemp " + s.rel(dir) + " " + pattern)
+	if s.metaFail() {
+		s.logEvent(g, "createtemp "+s.rel(dir)+" -> injected EIO")
+		return nil, eio("open", dir)
+	}
+	f, err := os.CreateTemp(dir, pattern)
+	if err == nil {
+		s.mu.Lock()
+		if s.tempNames == nil {
+			s.tempNames = map[string]string{}
+		}
+		s.tempNames[f.Name()] = dirOf(f.Name()) + "/$TEMP" + strconv.Itoa(len(s.tempNames)+1)
+		s.mu.Unlock()
+	}
+	s.logEvent(g, "createtemp "+s.rel(dir)+" "+pattern+" -> "+errClass(err))
+	return f, err
+}
+
+func dirOf(p string) string {
+	if i := strings.LastIndexByte(p, '/'); i >= 0 {
+		return p[:i]
+	}
+	return "."
+}
+
+// FSRename replaces os.Rename.
+func FSRename(oldpath, newpath string) error {
+	s := active()
+	if s == nil {
+		return os.Rename(oldpath, newpath)
+	}
+	g := s.seam("rename " + s.rel(oldpath) + " " + s.rel(newpath))
+	if s.metaFail() {
+		s.logEvent(g, "rename "+s.rel(oldpath)+" "+s.rel(newpath)+" -> injected EIO")
+		return eio("rename", oldpath)
+	}
+	err := os.Rename(oldpath, newpath)
+	s.logEvent(g, "rename "+s.rel(oldpath)+" "+s.rel(newpath)+" -> "+errClass(err))
+	return err
+}
+
+// FSRemove replaces os.Remove.
+func FSRemove(name string) error {
+	s := active()
+	if s == nil {
+		return os.Remove(name)
+	}
+	g := s.seam("remove " + s.rel(name))
+	if s.metaFail() {
+		s.logEvent(g, "remove "+s.rel(name)+" -> injected EIO")
+		return eio("remove", name)
+	}
+	err := os.Remove(name)
+	s.logEvent(g, "remove "+s.rel(name)+" -> "+errClass(err))
+	return err
+}
+
+// fileWrite is the data-write seam of *os.File: it shares the write plan with FSWriteFile.
+func fileWrite(f *os.File, data []byte) (int, error) {
+	s := active()
+	if s == nil {
+		return f.Write(data)
+	}
+	name := ""
+	if f != nil {
+		name = f.Name()
+	}
+	g := s.seam("fwrite " + s.rel(name))
+	s.mu.Lock()
+	s.writeCalls++
+	fault := ""
+	if s.Plan.WriteNth != 0 && s.writeCalls == s.Plan.WriteNth {
+		fault = s.Plan.WriteFault
+	}
+	cut := 0
+	if fault != "" {
+		cut = s.Plan.WriteCut
+		if cut < 0 {
+			cut = -cut
+		}
+		cut %= len(data) + 1
+	}
+	s.mu.Unlock()
+	switch fault {
+	case "torn":
+		_, err := f.Write(data[:cut])
+		s.mu.Lock()
+		s.Killed = true
+		s.Fired["torn_write"]++
+		s.mu.Unlock()
+		s.logEvent(g, "fwrite "+s.rel(name)+" -> TORN at "+strconv.Itoa(cut)+" "+errClass(err))
+		panic(exitSentinel{})
+	case "error_before":
+		s.mu.Lock()
+		s.Fired["write_error"]++
+		s.mu.Unlock()
+		s.logEvent(g, "fwrite "+s.rel(name)+" -> injected ENOSPC (nothing written)")
+		return 0, &fs.PathError{Op: "write", Path: name, Err: syscall.ENOSPC}
+	case "error_after":
+		n, _ := f.Write(data[:cut])
+		s.mu.Lock()
+		s.Fired["write_error"]++
+		s.mu.Unlock()
+		s.logEvent(g, "fwrite "+s.rel(name)+" -> injected ENOSPC after "+strconv.Itoa(cut))
+		return n, &fs.PathError{Op: "write", Path: name, Err: syscall.ENOSPC}
+	}
+	n, err := f.Write(data)
+	nd := s.norm(data)
+	s.logEvent(g, "fwrite "+s.rel(name)+" -> "+errClass(err)+" "+strconv.Itoa(len(nd))+" "+sum(nd))
+	return n, err
+}
+
+// FileWrite replaces (*os.File).Write.
+func FileWrite(f *os.File, b []byte) (int, error) { return fileWrite(f, b) }
+
+// FileWriteString replaces (*os.File).WriteString.
+func FileWriteString(f *os.File, str string) (int, error) { return fileWrite(f, []byte(str)) }
+
+func fileMeta(f *os.File, what string, do func() error) error {
+	s := active()
+	if s == nil {
+		return do()
+	}
+	name := ""
+	if f != nil {
+		name = f.Name()
+	}
+	g := s.seam(what + " " + s.rel(name))
+	if s.metaFail() {
+		if what == "close" {
+			_ = do() // the descriptor is released even when close reports an error
+		}
+		s.logEvent(g, what+" "+s.rel(name)+" -> injected EIO")
+		return eio(what, name)
+	}
+	err := do()
+	s.logEvent(g, what+" "+s.rel(name)+" -> "+errClass(err))
+	return err
+}
+
+// FileSync replaces (*os.File).Sync.
+func FileSync(f *os.File) error { return fileMeta(f, "sync", f.Sync) }
+
+// FileClose replaces (*os.File).Close.
+func FileClose(f *os.File) error { return fileMeta(f, "close", f.Close) }
+
+// FileTruncate replaces (*os.File).Truncate.
+func FileTruncate(f *os.File, size int64) error {
+	return fileMeta(f, "truncate", func() error { return f.Truncate(size) })
 }
